@@ -134,8 +134,11 @@ InWindow(H, snt, dl, j, i) ==
     ELSE dl[i].t <= ParDeadline(H, snt) - H.par.poll_us
 
 \* serial restriction of C02: no reply arrives after its own window
+\* (a direct TCP reply without a per-probe identifier "answers" every probe of the run: it is late only for the probes after
+\* which it was delivered - without this exception every default-mode SYN run with a destination reply would be exempt)
 NoLateReply(H, snt, dl) ==
-    \A j \in DOMAIN snt : \A i \in AnswersOf(H, snt, dl, j) : j < Len(snt) => dl[i].n < snt[j + 1].n
+    \A j \in DOMAIN snt : \A i \in AnswersOf(H, snt, dl, j) :
+        (j < Len(snt) /\ ~(PktOf(H, dl[i]).kind = "tcp" /\ Caveat(V(H), PktOf(H, dl[i])))) => dl[i].n < snt[j + 1].n
 
 HopAt(hops, ttl) == IF \E k \in DOMAIN hops : hops[k].ttl = ttl
                     THEN hops[CHOOSE k \in DOMAIN hops : hops[k].ttl = ttl]
